@@ -144,7 +144,7 @@ func (x *Exec) evalSpec(e ast.Expr, env *specEnv, reach Term) Val {
 			return v
 		case *types.Slice:
 			i := x.materialize(idx, types.Typ[types.Int])
-			a := &Addr{Kind: addrElem, SliceID: base.L[0], Index: Extend(i.L[0], 64, true), FT: u.Elem()}
+			a := &Addr{Kind: addrElem, SliceID: base.L[0], Index: Extend(i.L[0], 64, true), ElemT: u.Elem(), FT: u.Elem()}
 			return x.load(env.st, a, reach)
 		case *types.Array:
 			i := x.materialize(idx, types.Typ[types.Int])
@@ -271,7 +271,10 @@ func (x *Exec) fieldOf(base Val, name string, st *State, reach Term) Val {
 			a := x.toAddr(cur)
 			stt := a.FT.Underlying().(*types.Struct)
 			f := stt.Field(fi)
-			na := &Addr{Kind: addrObj, Base: a.Base, Obj: a.Obj, Path: joinPath(a.Path, f.Name()), FT: f.Type()}
+			nav := *a
+			nav.Path = joinPath(a.Path, f.Name())
+			nav.FT = f.Type()
+			na := &nav
 			if _, isStruct := f.Type().Underlying().(*types.Struct); isStruct {
 				cur = Val{T: types.NewPointer(f.Type()), A: na}
 				// keep as address for further selection; load at the end
@@ -323,7 +326,10 @@ func (x *Exec) evalAddr(e ast.Expr, env *specEnv) (*Addr, bool) {
 		}
 		for k := 0; k < stt.NumFields(); k++ {
 			if stt.Field(k).Name() == n.Sel.Name {
-				return &Addr{Kind: addrObj, Base: a.Base, Obj: a.Obj, Path: joinPath(a.Path, n.Sel.Name), FT: stt.Field(k).Type()}, true
+				na := *a
+				na.Path = joinPath(a.Path, n.Sel.Name)
+				na.FT = stt.Field(k).Type()
+				return &na, true
 			}
 		}
 	}
@@ -589,9 +595,12 @@ func (x *Exec) pkgOfType(t types.Type) *types.Package {
 // specInline runs a real Go function symbolically inside a spec (its effects
 // on the state are discarded).
 func (x *Exec) specInline(fn *ssa.Function, recv *Val, argExprs []ast.Expr, env *specEnv, reach Term) Val {
-	if fn == nil || len(fn.Blocks) == 0 {
-		specFail("spec calls a function without body")
+	if fn == nil {
+		specFail("spec calls an unknown function")
 	}
+	x.e.ensureBuilt(fn)
+	noBody := len(fn.Blocks) == 0
+	pts := sigParamTypes(fn.Signature)
 	var args []Val
 	k := 0
 	if recv != nil {
@@ -600,7 +609,11 @@ func (x *Exec) specInline(fn *ssa.Function, recv *Val, argExprs []ast.Expr, env 
 	}
 	for i, a := range argExprs {
 		v := x.evalSpec(a, env, reach)
-		args = append(args, x.materialize(v, fn.Params[k+i].Type()))
+		args = append(args, x.materialize(v, pts[k+i]))
+	}
+	if noBody {
+		r := x.pureCall(fn, args, env.st)
+		return r[0]
 	}
 	if ct := x.contractFor(fn); ct != nil && ct.Pure {
 		r := x.pureCall(fn, args, env.st)
